@@ -20,12 +20,15 @@ def hash_data_frame(d) -> str:
         .values
     ).hexdigest()
     # the row hashes look at bit patterns (and at str() of object cells): the types are part of the table
-    col_types = [str(t) for t in d.dtypes]
+    col_types = [
+        str(t) if str(t) != "category" else f"category[{t.categories.dtype}]"
+        for t in d.dtypes
+    ]
     cell_types = [
         [type(v).__name__ for v in d.iloc[:, j]]
         for j in range(d.shape[1])
-        if str(d.iloc[:, j].dtype) == "object"
-    ]  # by position: a query result may repeat a column name
+        if str(d.iloc[:, j].dtype) in ("object", "category")
+    ]  # by position: a query result may repeat a column name; a categorical column says "category" whatever it holds
     type_str = hashlib.sha256(str((col_types, cell_types)).encode("utf-8")).hexdigest()
     return f"{d.shape}_{list(d.columns)}_{hash_str}_{type_str}"
 
